@@ -167,11 +167,45 @@ def marginalFix : St → List Ev → Bool
       | none => false) ||
     (match s.pending with
       | some d => near d e.t
-      | none => false) || marginalFix (stepFix s e) es
+      | none => false) ||
+    -- a change delivered while the loop sleeps/sends: inotify may have merged it with the one before
+    -- for one watcher and not for the other, so whether the loop saw it at all is not known
+    (decide (e.t < s.free) && e.cur != 0 && relevant s.prev e) || marginalFix (stepFix s e) es
 
 /-- a change lands inside the `additionalWait` sleep or right after a signal: whether the consumer's
 load sees it is decided by single milliseconds -/
 def marginalRace (changes signals : List Nat) : Bool :=
   changes.any fun c => signals.any fun g => g < c + 7 && c < g + 30
+
+/-! ### relational tie: do the automaton's rules explain the observed signals?
+
+inotify merges identical consecutive events per instance, so the harness' second watcher and the real
+watcher do not always see the same *number* of events of a burst; a twin of the event that triggered a
+signal, queued while the loop sleeps, legitimately arms the timer.  The number of signals can therefore
+not be predicted from the log, but every observed signal must be one the loop's rules allow, and every
+change must be reported within `minInterval + additionalWait`. -/
+
+def within (a b tol : Nat) : Bool := a ≤ b + tol && b ≤ a + tol
+
+/-- a signal at `g` (previous one at `prev`) is allowed: an immediate report of a change not inside the
+quiet interval, or the trailing report `minInterval` (+ sleep) after the previous signal -/
+def sigLegit (chs : List Nat) (prev : Option Nat) (g : Nat) : Bool :=
+  (chs.any fun c => within g (c + additionalWait) slack &&
+      (match prev with | none => true | some p => p + minInterval ≤ c + additionalWait + slack)) ||
+  (match prev with
+    | none => false
+    | some p => within g (p + minInterval + additionalWait) slack &&
+        chs.any fun c => p ≤ c + additionalWait + slack && c ≤ g + slack)
+
+def allLegit (chs : List Nat) : Option Nat → List Nat → Bool
+  | _, [] => true
+  | prev, g :: gs => sigLegit chs prev g && allLegit chs (some g) gs
+
+/-- every change is reported within `minInterval + 2·additionalWait` (+ slack), unless the file
+disappears again before that -/
+def promptlyReported (c0 : Nat) (evs : List Ev) (sigs : List Nat) : Bool :=
+  (changeTimes c0 evs).all fun c =>
+    (sigs.any fun g => c ≤ g + slack && g ≤ c + minInterval + 2 * additionalWait + slack) ||
+    (evs.any fun e => e.cur == 0 && c ≤ e.t && e.t ≤ c + minInterval + 2 * additionalWait + slack)
 
 end MtxVerif.C38
